@@ -46,7 +46,12 @@ T_Rd ==
              /\ IF r.hard THEN e.parse = "err"
                 ELSE e.parse \in {"ok", "err"}      \* RFC content rule only: either way
 
-TNext == T_Devs \/ T_Rd
+\* the type-bitmap builder driven with an arbitrary sequence of add calls
+T_Bm == /\ IsEv("bm")
+        /\ UNCHANGED <<devs, used>>
+        /\ Rec[l].octets = ComposeBitmap(Range(Rec[l].adds))
+
+TNext == T_Devs \/ T_Rd \/ T_Bm
 TSpec == TInit /\ [][TNext]_tvars
 
 Accepted ==
